@@ -28,15 +28,25 @@ type bmhCase struct {
 
 var bmhMenu = []string{"matching reader", "matching reader TRY_HARDER", "other 1-D reader", "QR reader"}
 
-func bmhRead(s spec, k int, bmp *gozxing.BinaryBitmap) (o outcome) {
+// bmhHints: the hint maps of one history - ONE map per kind of read, reused by every read of that
+// kind (the caller's maps are the caller's: whatever a reader notes in them would reach the next read)
+type bmhHints struct {
+	plain, tryHarder map[gozxing.DecodeHintType]interface{}
+}
+
+func newBmhHints() *bmhHints {
+	return &bmhHints{map[gozxing.DecodeHintType]interface{}{}, map[gozxing.DecodeHintType]interface{}{gozxing.DecodeHintType_TRY_HARDER: true}}
+}
+
+func bmhRead(s spec, k int, bmp *gozxing.BinaryBitmap, hs *bmhHints) (o outcome) {
 	o.orient = -1
 	var rd gozxing.Reader
-	var hints map[gozxing.DecodeHintType]interface{}
+	hints := hs.plain
 	switch k {
 	case 0:
 		rd = s.reader()
 	case 1:
-		rd, hints = s.reader(), map[gozxing.DecodeHintType]interface{}{gozxing.DecodeHintType_TRY_HARDER: true}
+		rd, hints = s.reader(), hs.tryHarder
 	case 2:
 		if s.Sym == "code128" || s.Sym == "Code128" {
 			rd = oned.NewCode39Reader()
@@ -79,9 +89,10 @@ func bmhOne(l *mc.Local, c bmhCase, base *grid) {
 		return b
 	}
 	shared := mk()
+	sharedHints := newBmhHints()
 	for i, k := range c.Reads {
-		got := bmhRead(c.Spec, k, shared)
-		want := bmhRead(c.Spec, k, mk())
+		got := bmhRead(c.Spec, k, shared, sharedHints)
+		want := bmhRead(c.Spec, k, mk(), newBmhHints())
 		l.Count("evaluations", 2)
 		if got.kind == "panic" {
 			chk.Violation("C09/panic/"+got.site, fmt.Sprintf("panic %q in read %d of %v on one bitmap of %v %v", got.err, i+1, c.Reads, c.Spec, c.T), c)
@@ -115,7 +126,7 @@ func runBitmapHistories() {
 			}
 		}
 	}
-	chk.Range(fmt.Sprintf("histories on ONE BinaryBitmap: %s at heights {30, 1} x poses {upright, upside down, sideways} x scale 2 x EVERY sequence of <= 3 reads from {matching reader, matching reader TRY_HARDER, another 1-D reader, QR reader} (84 sequences): every outcome (text, ORIENTATION, error class) equals that of the same read on a fresh bitmap", countNames(specs)), len(specs),
+	chk.Range(fmt.Sprintf("histories on ONE BinaryBitmap: %s at heights {30, 1} x poses {upright, upside down, sideways} x scale 2 x EVERY sequence of <= 3 reads from {matching reader, matching reader TRY_HARDER, another 1-D reader, QR reader} (84 sequences): every outcome (text, ORIENTATION, error class) equals that of the same read on a fresh bitmap with fresh hint maps (the history reuses ONE hints map per kind of read)", countNames(specs)), len(specs),
 		func(i int) string { return specs[i].String() },
 		func(l *mc.Local, i int) {
 			s, base, err := drawFitting(specs[i])
